@@ -5,6 +5,7 @@
 package main
 
 import (
+	"bufio"
 	"flag"
 	"fmt"
 	"os"
@@ -16,12 +17,9 @@ func main() {
 	tier := flag.String("tier", "quick", "quick|thorough")
 	out := flag.String("out", "", "output directory")
 	replay := flag.String("replay", "", "replay file")
-	child := flag.String("child", "", "internal: run one sandboxed case")
+	cs := flag.Int("childstart", -1, "internal: sandbox child, first case index to execute")
 	flag.Parse()
-	if *child != "" {
-		runChild(*child)
-		return
-	}
+	childStart = *cs
 	if *out == "" {
 		fmt.Fprintln(os.Stderr, "need -out")
 		os.Exit(2)
@@ -31,9 +29,31 @@ func main() {
 	}
 	ctx := &Ctx{Prop: *prop, Seed: *seed, Tier: *tier, Out: *out, Replay: *replay}
 	ctx.rng = newRNG(uint64(*seed))
+	if childStart >= 0 {
+		ctx.childOut = bufio.NewWriterSize(os.Stdout, 1<<16)
+		limitMemory()
+	}
 	switch *prop {
 	case "C18":
 		runC18(ctx)
+	case "C01":
+		runRoundTrip(ctx, 1)
+	case "C02":
+		runRoundTrip(ctx, 2)
+	case "C05":
+		runLaws(ctx)
+	case "C06":
+		runMarshal(ctx)
+	case "C09":
+		runPresence(ctx)
+	case "C10":
+		runMerge(ctx)
+	case "C03":
+		runEvolution(ctx)
+	case "C08":
+		runBuild(ctx)
+	case "C04":
+		runArbitrary(ctx)
 	default:
 		fmt.Fprintln(os.Stderr, "unknown property", *prop)
 		os.Exit(2)
